@@ -43,6 +43,39 @@ CLAIMS = {
         tech="static analysis: frame (read-set) check of the fold body + transitive effect analysis over the name-resolved call graph + set-order leak analysis",
         ref="DESIGN.md section 2/C08",
     ),
+    "C09": dict(
+        cat="proof",
+        text="annotate_citations is a cursor loop with invariant strip(join(out)) = T[:cursor]; every acyclic path of the loop "
+        "body is simulated with version counters and order facts (killed by any assignment, generated only by recognised "
+        "idioms and two mechanically verified callee summaries) and must establish cursor<=start<=end and piece=T[start:end] "
+        "at the emission, set cursor=end afterwards, and leave cursor/out untouched when nothing is emitted; the tail completes "
+        "T. All paths discharged => additive for all inputs, modes, diff engines and source texts.",
+        note="Default annotator; spans given with 0<=start<=end; before/after do not occur in the texts. Trusted: checker, "
+        "Python slicing/join/sorted semantics, re.sub replacing non-overlapping matches and copying the rest.",
+        tech="static analysis: path enumeration + gen/kill dataflow of order facts (difference constraints closed by hand) + regex-AST shape check of the wrap substitution",
+        ref="DESIGN.md section 2/C09",
+    ),
+    "C10": dict(
+        cat="other",
+        text="Only the first sentence (no source text) is decided: on the loop-body paths without offset updater, overlap or "
+        "unbalanced verdict exactly one piece before+T[start:end]+after is emitted with the annotation's own offsets and "
+        "strings, over sorted(annotations), appended at the tail. The source-text clauses (alignment, monotone in-range "
+        "translation) depend on diff-library output values and are not decided.",
+        note="Source-text clauses not decided (values of fast_diff_match_patch/difflib results and two bisections).",
+        tech="static analysis: path enumeration with symbolic versions of start/end/span; def-use of before/after; iteration-source check",
+        ref="DESIGN.md section 2/C10",
+    ),
+    "C11": dict(
+        cat="other",
+        text="Structural part: in checked modes every emitted span passed the balance oracle after its last assignment (else "
+        "`continue`), wrap mode never drops an annotation and routes unbalanced spans through the additive wrapper with "
+        "(after, before), text content unchanged (all C09 obligations), and the oracle fails closed (True only without angle "
+        "brackets or after a completed lxml parse inside one root; only XMLSyntaxError caught -> False).",
+        note="Not decided: that balanced pieces at these offsets keep the whole document well-formed (needs lxml on concrete "
+        "trees); the 10-character tolerance.",
+        tech="static analysis: path-sensitive must-facts (balance verdict valid for the current span value) + call-argument/parameter agreement + exception-handler coverage",
+        ref="DESIGN.md section 2/C11",
+    ),
 }
 
 NA = {
@@ -56,6 +89,8 @@ ENGINES = [
     ("fold", "sa/fold.py", "role binding for the resolution fold; provenance lattice of resolver return values"),
     ("effects", "sa/effects.py", "write-set analysis with receiver provenance, transitive over a name-resolved call graph"),
     ("setorder", "sa/setorder.py", "classification of every use of a set-valued expression (order leak vs. order-insensitive)"),
+    ("annot", "sa/annot.py", "cursor-loop model of annotate_citations: per-path symbolic state, order facts, callee summaries"),
+    ("selftest", "sa/selftest.py + sa/mutants.py", "thorough tier: breaking/benign variants of /repo analysed in scratch copies (two-way validation of the checker)"),
     ("hashrules", "sa/hashrules.py", "equality/hash discipline of citation classes (read-sets, class tag, identity cases)"),
 ]
 
